@@ -26,6 +26,8 @@ RULE = (
     "the peer keeps talking in the previous key phase. non-trivial =at least one datagram was dropped, duplicated or delayed AND at least one stream "
     "delivered its end-of-stream; distinct = hash of (cc, versions, datagram size, bucketed op-kind multiset, bucketed fate multiset)."
 )
+RULE += " Directed generators added late: 'blocked' (receiver advertises 1.5-20 kB windows, sender writes 2-10x that, the whole flight is lost right after the write) and 'cidlate' (the datagram carrying NEW_CONNECTION_ID frames is held back, the frames are retransmitted and the receiver changes its connection ID twice before the late copy arrives)."
+
 ASSUMPTIONS = [
     "the driver (vf.simnet) calls the sans-IO API as documented: transmit after every call, timer fired at the requested deadline",
     "bounded completion is demanded within the fair phase (>= 150 virtual seconds after the adversarial phase), not 'eventually'",
